@@ -2089,6 +2089,9 @@ def disk_partitions(all=False):
     return _psplatform.disk_partitions(all)
 
 
+_disk_io_lock = threading.Lock()
+
+
 def disk_io_counters(perdisk=False, nowrap=True):
     """Return system disk I/O statistics as a namedtuple including
     the following fields:
@@ -2122,17 +2125,23 @@ def disk_io_counters(perdisk=False, nowrap=True):
     executed first otherwise this function won't find any disk.
     """
     kwargs = dict(perdisk=perdisk) if LINUX else {}
-    rawdict = _psplatform.disk_io_counters(**kwargs)
-    if nowrap:
+    if not nowrap:
+        rawdict = _psplatform.disk_io_counters(**kwargs)
+    else:
         # On Linux perdisk=False leaves partitions out: keep a separate
         # history so that alternating calls don't look like partitions
         # disappearing and reappearing.
         name = 'psutil.disk_io_counters'
         if LINUX and perdisk:
             name += '.perdisk'
-        # Also done when no disk is listed, so that the history of
-        # disks which went away is forgotten.
-        rawdict = _wrap_numbers(rawdict, name)
+        # Sample with the lock held, so that concurrent callers hand
+        # their snapshots to the history in the order they were taken
+        # (an older one arriving late would look like a wrap).
+        with _disk_io_lock:
+            rawdict = _psplatform.disk_io_counters(**kwargs)
+            # Also done when no disk is listed, so that the history of
+            # disks which went away is forgotten.
+            rawdict = _wrap_numbers(rawdict, name)
     if not rawdict:
         return {} if perdisk else None
     nt = getattr(_psplatform, "sdiskio", _common.sdiskio)
@@ -2156,6 +2165,9 @@ disk_io_counters.cache_clear.__doc__ = "Clears nowrap argument cache"
 # =====================================================================
 # --- network related functions
 # =====================================================================
+
+
+_net_io_lock = threading.Lock()
 
 
 def net_io_counters(pernic=False, nowrap=True):
@@ -2184,11 +2196,17 @@ def net_io_counters(pernic=False, nowrap=True):
     "net_io_counters.cache_clear()" can be used to invalidate the
     cache.
     """
-    rawdict = _psplatform.net_io_counters()
-    if nowrap:
-        # Also done when no NIC is listed, so that the history of
-        # NICs which went away is forgotten.
-        rawdict = _wrap_numbers(rawdict, 'psutil.net_io_counters')
+    if not nowrap:
+        rawdict = _psplatform.net_io_counters()
+    else:
+        # Sample with the lock held, so that concurrent callers hand
+        # their snapshots to the history in the order they were taken
+        # (an older one arriving late would look like a wrap).
+        with _net_io_lock:
+            rawdict = _psplatform.net_io_counters()
+            # Also done when no NIC is listed, so that the history of
+            # NICs which went away is forgotten.
+            rawdict = _wrap_numbers(rawdict, 'psutil.net_io_counters')
     if not rawdict:
         return {} if pernic else None
     if pernic:
